@@ -173,6 +173,16 @@ fn stepper_programs() -> Vec<Vec<u8>> {
     for hex in ["ff03ffff0100ffff0101ffff010280", "ff03ffff01820000ffff0101ffff010280", "ff03ffff0180ffff0101ffff010280", "ff03ffff10ffff0100ffff010080ffff0101ffff010280", "ff0101", "ff05ff0180", "ff06ff0180", "ff04ff02ff0380", "ff03ff02ff05ff0780", "ff02ff02ff0380", "ff10ff05ff0b80", "ff8200ffff0180", "ff01", "ff80ff0180"] {
         v.push((0..hex.len() / 2).map(|i| u8::from_str_radix(&hex[2 * i..2 * i + 2], 16).unwrap()).collect());
     }
+    // every operator of the latest table, by opcode, with one and with two small operands (the stepping evaluator must hand each to the same operator)
+    for (atom, name) in chialisp::classic::clvm::keyword_from_atom(2).iter() {
+        if name == "q" || name == "a" || name == "x" || name == "softfork" { continue; }
+        for args in ["(q . 5)", "(q . 5) (q . 3)", "(q . 1000) (q . 7) (q . 13)"] {
+            let mut a = clvmr::Allocator::new();
+            if let (Ok(op), Ok(rest)) = (a.new_atom(atom), chialisp::classic::clvm_tools::binutils::assemble(&mut a, &format!("({})", args))) {
+                if let Ok(p) = a.new_pair(op, rest) { if let Ok(b) = clvmr::serde::node_to_bytes(&a, p) { v.push(b); } }
+            }
+        }
+    }
     // every operator the stepping evaluator implements itself, with 0 .. arity+2 operands (each operand evaluates without error)
     for (op, first) in [("a", "(q . 2)"), ("i", "1"), ("c", "1"), ("f", "1"), ("r", "1"), ("q", "1")] { for n in 0..=5usize {
         let mut t = format!("({}", op);
